@@ -314,12 +314,22 @@ class CallResolver:
         kwargs = {}
         for arg in expr.args:
             if isinstance(arg, Assign):
+                if arg.name.level is not None:
+                    raise CallResolverError("A keyword argument name cannot have a level.")
                 kwargs[arg.name.name.lexeme] = arg.value.accept(self)
             else:
                 args.append(arg.accept(self))
+        if getattr(expr.callee, "level", None) is not None:
+            raise CallResolverError("The name of a function cannot have a level.")
         return LazyCall(expr.callee.name.lexeme, args, kwargs)
 
     def visitVariableExpr(self, expr):
+        # The subset notation 'variable[level]' is only meaningful for response terms.
+        # It used to be silently dropped here.
+        if expr.level is not None:
+            raise CallResolverError(
+                f"Subset notation '{expr.name.lexeme}[...]' is not allowed inside a function call."
+            )
         return LazyVariable(expr.name.lexeme)
 
     def visitLiteralExpr(self, expr):
